@@ -97,8 +97,25 @@ func genC19Case(r *rand.Rand, uniq string) c19Case {
 		}
 		c.referBook = bookSpec{Name: "Item" + uniq, Sheets: []sheetSpec{{Name: itemSheet, Rows: irows}}}
 	}
-	c.book = bookSpec{Name: "Fuzz" + uniq, Sheets: []sheetSpec{gs.spec}}
-	if r.Intn(6) == 0 {
+	bookName := "Fuzz" + uniq
+	if r.Intn(4) == 0 {
+		bookName += ".v2" // a dot inside the workbook's name (the container is still told by the extension)
+	}
+	c.book = bookSpec{Name: bookName, Sheets: []sheetSpec{gs.spec}}
+	if gs.vkind == "map" && !c.merger && len(gs.spec.Rows) > 4 && r.Intn(6) == 0 {
+		// a repeated key in a vertical map whose key uniqueness is deduced: both paths refuse it alike
+		c.corrupt = true
+		clean := gs.spec
+		clean.Rows = make([][]string, len(gs.spec.Rows))
+		for i, row := range gs.spec.Rows {
+			clean.Rows[i] = append([]string{}, row...)
+		}
+		c.cleanBook = bookSpec{Name: bookName, Sheets: []sheetSpec{clean}}
+		rows := c.book.Sheets[0].Rows
+		dup := append([]string{}, rows[4]...)
+		dup[0] = rows[3][0]
+		c.book.Sheets[0].Rows = append(rows, dup)
+	} else if r.Intn(6) == 0 {
 		c.corrupt = true
 		// the sheet as generated, before the one cell is spoilt
 		clean := gs.spec
@@ -106,7 +123,7 @@ func genC19Case(r *rand.Rand, uniq string) c19Case {
 		for i, row := range gs.spec.Rows {
 			clean.Rows[i] = append([]string{}, row...)
 		}
-		c.cleanBook = bookSpec{Name: "Fuzz" + uniq, Sheets: []sheetSpec{clean}}
+		c.cleanBook = bookSpec{Name: bookName, Sheets: []sheetSpec{clean}}
 		rows := c.book.Sheets[0].Rows
 		if len(rows) > 3 {
 			k := 3 + r.Intn(len(rows)-3)
